@@ -810,6 +810,23 @@ def cpl(c, F, G = None, h = None, dims = None, A = None, b = None,
                 blas.copy(rznl0, rznl);  blas.copy(rzl0, rzl);
                 resznl = blas.nrm2(rznl)
 
+                # The statistics returned with status 'unknown' if the 
+                # KKT matrix is singular again must be those of the 
+                # restored iterates.
+                pcost = xdot(c,x)
+                dcost = pcost + ydot(y, ry) + blas.dot(z[:mnl], rznl) + \
+                    misc.sdot(z[mnl:], rzl, dims) - gap
+                if pcost < 0.0:
+                    relgap = gap / -pcost
+                elif dcost > 0.0:
+                    relgap = gap / dcost
+                else:
+                    relgap = None
+                resy = math.sqrt(ydot(ry, ry))
+                reszl = misc.snrm2(rzl, dims)
+                pres = math.sqrt( resy**2 + resznl**2 + reszl**2 ) / pres0
+                dres = resx / dres0
+
                 relaxed_iters = -1
 
                 try: f3 = kktsolver(x, z[:mnl], W)
